@@ -59,7 +59,14 @@ func init() {
 					case jsonPkg + ".jsonDecode", jsonPkg + ".decodeExactNumbers":
 						obs = append(obs, mkOb(c, "JSON.single-acceptance", u, construct, ce, Proved, "inside an acceptance function", false))
 					default:
-						obs = append(obs, mkOb(c, "JSON.single-acceptance", u, construct, ce, Violated, "a second place decides what JSON text is accepted", true))
+						// the decoding loop an acceptance function is built on (`decodeExactNumbers` → `decodeDocuments(b, true, 1)`,
+						// shared with a loader of several documents): still the one place that decides
+						reach := c.staticReach(func(p string) bool { return rel(p) == jsonPkg }, u.Obj)
+						if reach[jd] || reach[de] {
+							obs = append(obs, mkOb(c, "JSON.single-acceptance", u, construct, ce, Proved, "the decoding helper an acceptance function is built on", true))
+						} else {
+							obs = append(obs, mkOb(c, "JSON.single-acceptance", u, construct, ce, Violated, "a second place decides what JSON text is accepted", true))
+						}
 					}
 				}
 			}
@@ -79,33 +86,48 @@ func init() {
 				u := FuncUnit{fn, fd, pkg}
 				info := pkg.TypesInfo
 				ndecode, usesMore, eofCmp := 0, false, false
-				ast.Inspect(fd.Body, func(n ast.Node) bool {
-					switch x := n.(type) {
-					case *ast.CallExpr:
-						if methodCalled(info, x, "encoding/json", "Decoder", "Decode") {
-							ndecode++
+				// the function itself and the same-package functions it calls directly (the decoding loop may be a
+				// helper shared with a loader of several documents)
+				bodies := []ast.Node{fd.Body}
+				binfo := []*types.Info{info}
+				for _, ce := range callsIn(fd.Body, true) {
+					if h := originOf(Callee(info, ce)); h != nil && h.Pkg() == fn.Pkg() && h != fn {
+						if hd := c.declOf[h]; hd != nil && hd.Body != nil {
+							bodies = append(bodies, hd.Body)
+							binfo = append(binfo, c.pkgOf[hd].TypesInfo)
 						}
-						if methodCalled(info, x, "encoding/json", "Decoder", "More") {
-							usesMore = true
-						}
-						if stdFuncCalled(info, x, "errors", "Is") && len(x.Args) == 2 {
-							if se, ok := ast.Unparen(x.Args[1]).(*ast.SelectorExpr); ok && se.Sel.Name == "EOF" {
-								eofCmp = true
+					}
+				}
+				for bi, body := range bodies {
+					info := binfo[bi]
+					ast.Inspect(body, func(n ast.Node) bool {
+						switch x := n.(type) {
+						case *ast.CallExpr:
+							if methodCalled(info, x, "encoding/json", "Decoder", "Decode") {
+								ndecode++
 							}
-						}
-					case *ast.BinaryExpr:
-						if x.Op == token.NEQ || x.Op == token.EQL {
-							for _, e := range []ast.Expr{x.X, x.Y} {
-								if se, ok := ast.Unparen(e).(*ast.SelectorExpr); ok && se.Sel.Name == "EOF" {
-									if id, ok := se.X.(*ast.Ident); ok && id.Name == "io" {
-										eofCmp = true
+							if methodCalled(info, x, "encoding/json", "Decoder", "More") {
+								usesMore = true
+							}
+							if stdFuncCalled(info, x, "errors", "Is") && len(x.Args) == 2 {
+								if se, ok := ast.Unparen(x.Args[1]).(*ast.SelectorExpr); ok && se.Sel.Name == "EOF" {
+									eofCmp = true
+								}
+							}
+						case *ast.BinaryExpr:
+							if x.Op == token.NEQ || x.Op == token.EQL {
+								for _, e := range []ast.Expr{x.X, x.Y} {
+									if se, ok := ast.Unparen(e).(*ast.SelectorExpr); ok && se.Sel.Name == "EOF" {
+										if id, ok := se.X.(*ast.Ident); ok && id.Name == "io" {
+											eofCmp = true
+										}
 									}
 								}
 							}
 						}
-					}
-					return true
-				})
+						return true
+					})
+				}
 				switch {
 				case usesMore:
 					obs = append(obs, mkOb(c, "JSON.trailing-data", u, "trailing content check", fd, Violated, "uses Decoder.More, which reports false before a stray closing bracket: `1]` or `{}}` would be accepted", true))
